@@ -82,6 +82,8 @@ def run(ctx, chk):
                            "to NOTENOUGHDATA) under the non-wrapping test 'needed > provided - claimed': necessary for 'a truncated "
                            "item is never given a hard error'")
     chk.rule("C05.nedata-wrap", "the pending-length arithmetic of the decoder cannot wrap")
+    chk.rule("C05.action", "a supported head is never answered ERROR, whatever length it declares (a truncated item is NOTENOUGHDATA - MALFORMATED is "
+             "for reserved and unsupported initial bytes), and a reserved one is never decoded (shared with C08.action)")
     chk.rule("C05.claim", "claims are head byte, argument bytes, payload")
     chk.rule("C05.nothing-left", "cbor_load, the builder callbacks and _cbor_builder_append release or hand off every reference and "
                                  "raw block they own on every path (shared with C04.client / C06.blocks)")
@@ -229,8 +231,8 @@ def run(ctx, chk):
     # builders: no silent drop
     builders = check_no_silent_drop(chk, "C05.no-silent-drop", prog, eff)
     # truncation is reported as NEDATA, without wrapping
-    n_ = DR.per_byte(chk, "C05", prog, eff, {"nedata", "nedata-wrap", "claim"}, by_byte=by_byte)
-    chk.floor("C05.nedata", "per-byte truncation obligations", n_, 300)
+    n_ = DR.per_byte(chk, "C05", prog, eff, {"nedata", "nedata-wrap", "claim", "action"}, by_byte=by_byte)
+    chk.floor("C05.nedata", "per-byte truncation obligations", n_, 250)
     # nothing left allocated
     import ownership as O
     from props.c06 import check_balance, check_blocks
@@ -309,6 +311,11 @@ def run(ctx, chk):
              "complete instead of NOTENOUGHDATA (shared with C02.narrowing)")
     import rules as _rnw
     _rnw.check_narrowing(chk, "C05.narrowing", prog, eff=eff)
+    chk.rule("C05.stateless", "the decoder is a function of its arguments: nothing reachable from cbor_load / cbor_stream_decode writes an object with static storage "
+             "(no memo of the previous call, no flag that survives it) - the answer for a buffer does not depend on what was decoded before "
+             "(transitive write sets from the effects engine; shared with C17.no-global-write)")
+    import rules as _rst
+    _rst.check_stateless(chk, "C05.stateless", prog, eff, ('cbor_load', 'cbor_stream_decode'))
     chk.exhaustive = True
 
 
